@@ -132,7 +132,8 @@ Refused(c) == c.conflicts \/ (c.merge /\ ~(c.sel.all /\ c.excl = {})) \/ BelowNo
 FeasibleS(b, w, m, S) ==
     \E exp \in {ExpectedCommitTree(b, w, m, S)} : \E w2 \in {WtAfter(w, m, S)} : \E m2 \in {MissAfter(w, m, S)} :
         /\ ValidTree(exp)
-        /\ \A i \in S \cap DOMAIN exp : PathOf(exp, i) = PathOf(w, i)        \* "path substituted": no unselected moved parent
+        \* "path substituted": a changed selected entry is recorded at its working path (no unselected moved parent)
+        /\ \A i \in S \cap DOMAIN exp : Pending(b, w, m, i) => PathOf(exp, i) = PathOf(w, i)
         /\ \A i \in AllIds(b, w) \ S : Pending(b, w, m, i) => Pending(exp, w2, m2, i)
 Feasible(c) == FeasibleS(c.b, c.w, c.m, Selected(c.b, c.w, c.m, c.sel, c.excl))
 SpecOutcome(c) == IF Refused(c) \/ ~Feasible(c) \/ c.fault # "none" THEN "raised" ELSE "ok"
